@@ -397,8 +397,13 @@ def child_main(case, root):
             step["cell_changed"] = pre_cell != dict(holder["cell"])
             step["failed_changed"] = pre_failed != set(A._IMPORT_FAILED)
             step["nameerror"] = None
+            step["missing_after"] = None
             if step["r"] is True:
                 step["nameerror"] = exec_probe(code, nss)
+                try:
+                    step["missing_after"] = [str(x) for x in orig_fmi(code, nss)]
+                except BaseException as e:
+                    step["missing_after"] = "EXC " + type(e).__name__
             step["values_ok"] = value_probe(case, step, nss, idx if not isinstance(out["index"], str) else {})
         step["st"] = snapshot()
         out["steps"].append(step)
@@ -687,6 +692,15 @@ def is_f21(case, step):
     return bool(case.get("forget")) and step.get("r") == "EXC AssertionError"
 
 
+def is_f07a(case, step):
+    """classifier of F07a: after a True result a name needs import again because a module attribute
+    that was a plain value has been replaced by the same-named submodule (loaded by another import
+    of the same call): only possible where a module has a static attribute spelled like one of its
+    submodule files"""
+    mods = case["mods"]
+    return any(("%s.%s" % (d, a)) in mods for d, m in mods.items() for a in m["attrs"])
+
+
 def is_rebind_same(case, step, prev):
     """classifier of the 'same object re-bound at the last level' finding: the added key is bound,
     to the identical object, in an earlier namespace"""
@@ -762,6 +776,11 @@ def oracle(ctx, prop, case, im):
         if prop == "C07" and chains is not None:
             if st["r"] is True and st["nameerror"]:
                 bad.append(("success_resolves", "call %d: auto_import(%r) returned True but executing it raises NameError: %s" % (k, code, st["nameerror"])))
+            if st["r"] is True and st["missing_after"]:
+                if is_f07a(case, st) and not isinstance(st["missing_after"], str):
+                    ctx.known_hit("F07a", "after a True result find_missing_imports(code) is not empty: a value attribute was replaced by the same-named submodule during the call")
+                else:
+                    bad.append(("success_resolves", "call %d: auto_import(%r) returned True but afterwards %r still need import" % (k, code, st["missing_after"])))
             # provenance
             for t in st["try"]:
                 if t["res"] and t["added"]:
